@@ -14,6 +14,7 @@ translation validation across the three build/dispatch configurations (tools/pro
 Property theorems only; helper lemmas live in Proof/YamlChunked.lean and Proof/YamlKernels.lean.
 -/
 import SuccinctlyVerif.Proof.YamlKernels
+import SuccinctlyVerif.Generated.C16
 namespace SV.Props.C16
 open SV SV.YamlK
 
@@ -174,5 +175,55 @@ theorem clamp_total :
 example : levelOf true (some [' ', 'S', 's', 'E', '2', '\n']) = .sse2 := by decide
 example : levelOf true (some ['s', 's', 'e', '3']) = .avx2 := by decide
 example : parseSimdClamp ['A', 'V', 'X', '2'] = some false := by decide
+
+/-! ### the lane DAGs are the ones in the source -/
+
+/-- Every lane DAG of `src/yaml/simd/x86.rs`, as regenerated from the source on this run by
+`tools/rs2lean.py` (Generated/C16.lean: both classifiers, and the main-loop / tail-step / look-ahead
+compare trees of every `find_*`, `count_leading_spaces`, `find_block_scalar_end` and
+`parse_anchor_name` kernel at both widths), computes for all 256 byte values exactly the lane value
+of the hand-written DAG of Model/YamlSimd.lean that the kernel theorems above are about.  A changed
+comparison constant or a dropped `or` in x86.rs breaks this theorem. -/
+theorem lanes_generated_eq :
+    (∀ x, Gen.yaml_classify_avx2_newlines_lane x = cmpeq 0x0a#8 x) ∧
+    (∀ x, Gen.yaml_classify_avx2_carriage_returns_then_lane x = cmpeq 0x0d#8 x) ∧
+    (∀ x, Gen.yaml_classify_avx2_colons_lane x = cmpeq 0x3a#8 x) ∧
+    (∀ x, Gen.yaml_classify_avx2_hyphens_lane x = cmpeq 0x2d#8 x) ∧
+    (∀ x, Gen.yaml_classify_avx2_spaces_lane x = cmpeq 0x20#8 x) ∧
+    (∀ x, Gen.yaml_classify_avx2_quotes_double_lane x = cmpeq 0x22#8 x) ∧
+    (∀ x, Gen.yaml_classify_avx2_quotes_single_lane x = cmpeq 0x27#8 x) ∧
+    (∀ x, Gen.yaml_classify_avx2_backslashes_lane x = cmpeq 0x5c#8 x) ∧
+    (∀ x, Gen.yaml_classify_avx2_hash_lane x = cmpeq 0x23#8 x) ∧
+    (∀ x, Gen.yaml_classify_sse2_newlines_lane x = cmpeq 0x0a#8 x) ∧
+    (∀ x, Gen.yaml_classify_sse2_carriage_returns_then_lane x = cmpeq 0x0d#8 x) ∧
+    (∀ x, Gen.yaml_classify_sse2_colons_lane x = cmpeq 0x3a#8 x) ∧
+    (∀ x, Gen.yaml_classify_sse2_hyphens_lane x = cmpeq 0x2d#8 x) ∧
+    (∀ x, Gen.yaml_classify_sse2_spaces_lane x = cmpeq 0x20#8 x) ∧
+    (∀ x, Gen.yaml_classify_sse2_quotes_double_lane x = cmpeq 0x22#8 x) ∧
+    (∀ x, Gen.yaml_classify_sse2_quotes_single_lane x = cmpeq 0x27#8 x) ∧
+    (∀ x, Gen.yaml_classify_sse2_backslashes_lane x = cmpeq 0x5c#8 x) ∧
+    (∀ x, Gen.yaml_classify_sse2_hash_lane x = cmpeq 0x23#8 x) ∧
+    (∀ x, Gen.yaml_newline_sse2_mask_lane x = laneNewline x) ∧
+    (∀ x, Gen.yaml_newline_avx2_mask_0_lane x = laneNewline x) ∧
+    (∀ x, Gen.yaml_newline_avx2_mask_1_lane x = laneNewline x) ∧
+    (∀ x, Gen.yaml_quote_sse2_mask_lane x = laneQuoteOrEsc x) ∧
+    (∀ x, Gen.yaml_quote_avx2_mask_0_lane x = laneQuoteOrEsc x) ∧
+    (∀ x, Gen.yaml_quote_avx2_mask_1_lane x = laneQuoteOrEsc x) ∧
+    (∀ x, Gen.yaml_squote_sse2_mask_lane x = laneSingleQuote x) ∧
+    (∀ x, Gen.yaml_squote_avx2_mask_0_lane x = laneSingleQuote x) ∧
+    (∀ x, Gen.yaml_squote_avx2_mask_1_lane x = laneSingleQuote x) ∧
+    (∀ x, Gen.yaml_spaces_sse2_mask_lane x = laneSpace x) ∧
+    (∀ x, Gen.yaml_spaces_avx2_mask_0_lane x = laneSpace x) ∧
+    (∀ x, Gen.yaml_spaces_avx2_mask_1_lane x = laneSpace x) ∧
+    (∀ x, Gen.yaml_block_nl_avx2_nl_mask_0_lane x = laneBreak x) ∧
+    (∀ x, Gen.yaml_block_sp_avx2_space_mask_lane x = laneSpace x) ∧
+    (∀ x, Gen.yaml_block_nl_sse2_nl_mask_0_lane x = laneBreak x) ∧
+    (∀ x, Gen.yaml_block_sp_sse2_space_mask_lane x = laneSpace x) ∧
+    (∀ x, Gen.yaml_anchor_avx2_definite_mask_lane x = laneAnchorDefinite x) ∧
+    (∀ x, Gen.yaml_anchor_avx2_colon_mask_lane x = laneColon x) := by
+  repeat' constructor
+  all_goals (apply byte_forall; decide +kernel)
+
+example : Gen.yaml_quote_avx2_mask_0 0x5c#8 = true ∧ Gen.yaml_quote_avx2_mask_0 0x5d#8 = false := by decide
 
 end SV.Props.C16
